@@ -11,11 +11,12 @@ def run(ctx):
     r = ctx.model_check("Resolver/Sockets.tla", "Sockets_mc.cfg", workers=8, timeout=600)
     if r.violation:
         raise vlib.MachineryError("Sockets.tla violates its own invariant %s" % r.violation)
+    many = {"module": "GenMany.tla", "cfg": "GenMany.cfg", "name": "many"}
     if ctx.quick:
-        gens = [{"module": "Gen_C10.tla", "cfg": "Gen_C10_quick.cfg", "name": "bfs"}]
+        gens = [{"module": "Gen_C10.tla", "cfg": "Gen_C10_quick.cfg", "name": "bfs"}, many]
     else:
         gens = [{"module": "Gen_C10.tla", "cfg": "Gen_C10_thorough.cfg", "name": "bfs"},
-                {"module": "Gen_C10.tla", "cfg": "Gen_C10_sim.cfg", "name": "sim", "simulate": 1500, "depth": 9}]
+                {"module": "Gen_C10.tla", "cfg": "Gen_C10_sim.cfg", "name": "sim", "simulate": 1500, "depth": 9}, many]
     simlib.engine_check(ctx, gens, FACETS, selftests=mutators.SOCKETS)
     ctx.assumptions += ["sockets are virtual (ares_set_socket_functions_ex); descriptor numbers are never reused by the harness",
                         "ares_getsock is checked up to its 16-socket limit"]
